@@ -37,13 +37,74 @@ def oracle_known(info):
     return None
 
 
+TRACE_EVENTS = {"Load", "ResBegin", "Request", "Peek", "Take", "ResEnd"}
+
+
+def trace_validation(ctx, cov):
+    """Mode T for the activation protocol: needs the Request/Peek/Take/Load hooks in resolution.rs
+    (see SymResTrace.tla).  Until they are in the build the step reports their absence and does nothing."""
+    import json
+    import random
+    from vlib import tlc
+    from vlib.common import ToolError, save_replay, scratch
+    rng = random.Random(ctx.seed)
+
+    def sym(d):
+        return {"def": d, "vis": "default"}
+
+    n_links = 6 if ctx.quick else 40
+    accepted = events = 0
+    with scratch("c03-trace") as top:
+        for k in range(n_links):
+            # object -> chain of members, plus members that are referenced only weakly / not at all
+            nm = rng.choice([2, 3, 4])
+            files = [{"kind": "obj", "syms": {"a": sym("undef"), "b": sym(rng.choice(["none", "undef", "weakundef"]))}}]
+            for i in range(nm):
+                files.append({"kind": "member", "syms": {"a": sym("strong" if i == 0 else rng.choice(["none", "undef"])),
+                                                          "b": sym("strong" if i == nm - 1 else rng.choice(["none", "undef", "weakundef"]))}})
+            rng.shuffle(files)
+            cfg = {"files": files, "opts": {}}
+            d = top / f"t{k}"
+            d.mkdir()
+            line = symres.emit(cfg, d, variant=rng.choice([0, 1, 2, 4]))
+            tr = d / "trace.ndjson"
+            env = {"WILD_VERIF_TRACE": str(tr), "WILD_VERIF_YIELD_SEED": str(rng.getrandbits(31)), "WILD_FILES_PER_GROUP": "1"}
+            r = symres.link("wild", line, d, "out.wild", threads=rng.choice([2, 4, 8]), env=env)
+            if r.timed_out or not tr.exists():
+                continue
+            evs = [json.loads(x) for x in tr.read_text().splitlines() if x.strip()]
+            evs = [e for e in evs if e.get("ev") in TRACE_EVENTS]
+            if not any(e["ev"] == "ResBegin" for e in evs):
+                cov["trace_validation"] = "skipped: the resolution.rs hooks (Load/ResBegin/Request/Peek/Take/ResEnd) are not in this build"
+                return
+            # one call of the resolver per trace
+            last = max(i for i, e in enumerate(evs) if e["ev"] == "ResEnd") if any(e["ev"] == "ResEnd" for e in evs) else None
+            if last is None:
+                if r.rc == 0:
+                    raise ToolError("trace without ResEnd from a successful link (hook drift)")
+                continue
+            evs = evs[:last + 1]
+            f = d / "res.ndjson"
+            f.write_text("".join(json.dumps(e) + "\n" for e in evs))
+            ok, info = tlc.validate_trace("SymResTrace", "mc/SymResTrace.cfg", f, name=f"c03.tr.{k}")
+            events += len(evs)
+            if ok:
+                accepted += 1
+            else:
+                ctx.verdict.report("activation-trace-rejected",
+                                   f"activation trace of a real link is not a behaviour of the protocol: event #{info.get('unmatched_index')} {info.get('unmatched_event')}",
+                                   lambda: save_replay(PROP, f"trace-{k}", d, meta={"line": line, "env": env, "info": info}))
+    cov["trace_validation"] = {"traces_accepted": accepted, "events": events}
+
+
 def run(ctx):
     if ctx.quick:
-        plan = [("mc/SymRes_c03_quick.cfg", 900, 4), ("mc/SymRes_c03_roots.cfg", 900, 4)]
+        plan = [("mc/SymRes_c03_quick.cfg", 900, 4), ("mc/SymRes_c03_roots.cfg", 900, 2)]
     else:
         plan = [("mc/SymRes_c03_quick.cfg", 900, 1), ("mc/SymRes_c03_roots.cfg", 900, 1),
                 ("mc/SymRes_c03_weak.cfg", 2400, 8), ("mc/SymRes_c03_chain.cfg", 1200, 3)]
     cov = symres.run_plan(ctx, PROP, plan, ASPECTS, "both", oracle_known, skip_load_divergent=OWN)
+    trace_validation(ctx, cov)
     return {
         "level": "model_checking",
         "coverage": cov,
